@@ -10,7 +10,8 @@ Events == [op : {"construct"}, cls : {"Base", "Mid", "Leaf"}, style : {"pos", "k
           \cup [op : {"symconstruct"}, cls : {"Base", "Mid", "Leaf"}, style : {"kw", "default"}, n : {0}, T : {"-"}]
           \cup [op : {"infer"}, cls : {"P"}, style : {"-"}, n : {0, 1, 2}, T : {"-"}]
           \cup [op : {"clear"}, cls : {"-"}, style : {"-"}, n : {0}, T : {"-"}]
-          \cup [op : {"query"}, cls : {"-"}, style : {"-"}, n : {0}, T : {"Base", "Mid", "Leaf", "P"}]
+          \* style "named": let(T, name = "v"); "an": an(T) / an(has_type = T) shorthand
+          \cup [op : {"query"}, cls : {"-"}, style : {"-", "named", "an"}, n : {0}, T : {"Base", "Mid", "Leaf", "P"}]
           \cup [op : {"declare"}, cls : {"-"}, style : {"-"}, n : {0}, T : {"Base", "Mid"}]
           \cup [op : {"evalvar"}, cls : {"-"}, style : {"-"}, n : 1..2, T : {"-"}]
 Init == s = InitS /\ hist = <<>>
